@@ -104,6 +104,48 @@ def support_world(ctx, eng, st, name, vkind):
     return ver, nums
 
 
+@unit("C12", "_ctlseqs:reply-patterns")
+def u_reply_patterns(ctx):
+    """The patterns the query functions cut their answers out of, against the reply formats of the protocols they speak (xterm
+    ctlseqs OSC 10/11 and XTVERSION / XTWINOPS reports, kitty graphics responses): each compiled pattern denotes exactly the replies of
+    that format - in particular a reply is recognised whichever of the two string terminators (ST, BEL) ends it - and its groups
+    are the fields the callers read.  Languages are compared as regular languages (no bound on the length)."""
+    from pyvc import rx as _rx
+    from pyvc.engine import Obligation
+    ESC, BEL = "\x1b", "\x07"
+    R, cat, U, rng, plus, opt = z3.Re, z3.Concat, z3.Union, z3.Range, z3.Plus, z3.Option
+    digits = plus(rng("0", "9"))
+    hexslash = plus(U(rng("0", "9"), rng("a", "f"), rng("A", "F"), R("/")))
+    st = U(R(ESC + "\\"), R(BEL))
+    word = plus(U(rng("a", "z"), rng("A", "Z"), rng("0", "9"), R("_")))
+    anychar = z3.AllChar(z3.ReSort(z3.StringSort()))
+    not_paren_esc = plus(z3.Diff(anychar, U(R(")"), R(ESC))))
+    no_newline = plus(z3.Diff(anychar, R("\n")))
+    spec = {
+        "RGB_SPEC_re": (cat(R(ESC + "]"), digits, R(";"), cat(R("rgb:"), hexslash), st), {1: digits, 2: cat(R("rgb:"), hexslash)}),
+        "XTVERSION_re": (cat(R(ESC + "P>|"), word, U(R("("), R(" ")), not_paren_esc, opt(R(")")), st), {1: word, 2: not_paren_esc}),
+        "TEXT_AREA_SIZE_PX_re": (cat(R(ESC + "[4;"), digits, R(";"), digits, R("t")), {1: digits, 2: digits}),
+        "CELL_SIZE_PX_re": (cat(R(ESC + "[6;"), digits, R(";"), digits, R("t")), {1: digits, 2: digits}),
+        "KITTY_RESPONSE_re": (cat(R(ESC + "_Gi="), digits, opt(cat(R(",I="), digits)), R(";"), no_newline, R(ESC + "\\")), {1: digits, 2: digits, 3: no_newline}),
+    }
+    obs = []
+    s_ = z3.String("reply")
+    for name, (want, want_groups) in spec.items():
+        kind, pat, flags, isbytes = ctx.const("term_image._ctlseqs", name)
+        groups = {}
+        got = _rx.to_z3re(pat, flags, groups=groups)
+        obs.append(Obligation(f"C12/reply-patterns/{name}:every-reply-of-the-format-is-recognised(either-terminator)", [z3.InRe(s_, want)], z3.InRe(s_, got), "C12",
+                              {"kind": "post", "replay": "C12.colors"}))
+        obs.append(Obligation(f"C12/reply-patterns/{name}:nothing-else-is-taken-for-a-reply", [z3.InRe(s_, got)], z3.InRe(s_, want), "C12",
+                              {"kind": "post", "replay": "C12.colors"}))
+        for gi, gw in want_groups.items():
+            gg = groups.get(gi)
+            obs.append(Obligation(f"C12/reply-patterns/{name}:group{gi}-is-the-field-the-callers-read", [],
+                                  z3.BoolVal(gg is not None) if gg is None else z3.And(z3.Implies(z3.InRe(s_, gg), z3.InRe(s_, gw)), z3.Implies(z3.InRe(s_, gw), z3.InRe(s_, gg))),
+                                  "C12", {"kind": "post", "replay": "C12.colors"}))
+    return obs
+
+
 @unit("C12", "kitty:KittyImage.is_supported")
 def u_kitty_supported(ctx):
     obs = []
